@@ -66,6 +66,9 @@ def generate(rng, tier: str, index: int) -> dict:
         # the first neighbor is configured as an address range (`neighbor 10.0.1.0/24 { passive; }`): its peer is made
         # by the listener when the speaker connects in, and is not restarted by exabgp after a loss
         nbrs[0].update({'range': True, 'peer_ip': '10.0.1.2', 'passive': True, 'local_auto': False})
+        if nn > 1 and rng.chance(0.5):
+            # a second peer of the same range (one `neighbor` block serves both)
+            nbrs[1].update({'range': True, 'peer_ip': '10.0.1.3', 'passive': True, 'local_auto': False, 'peer_as': nbrs[0]['peer_as'], 'hold': nbrs[0]['hold'], 'gr': nbrs[0]['gr']})
     events = []
     for _ in range(rng.randint(2, 30 if tier == 'thorough' else 16)):
         peer = rng.randint(0, nn - 1)
@@ -142,7 +145,16 @@ def execute(plan: dict) -> dict:
     changed: set[int] = set()
 
     def conf_text() -> str:
-        return config_text([{'name': 'h1'}], [neighbor_conf(nb, changed=nb['idx'] in changed) for nb in nbrs if nb['idx'] not in removed])
+        blocks, seen_range = [], False
+        for nb in nbrs:
+            if nb['idx'] in removed:
+                continue
+            if nb.get('range'):
+                if seen_range:
+                    continue
+                seen_range = True
+            blocks.append(neighbor_conf(nb, changed=nb['idx'] in changed))
+        return config_text([{'name': 'h1'}], blocks)
 
     w.boot(conf_text())
     h = w.procs.helper('h1')
